@@ -1,19 +1,12 @@
-(* Proofs about sm2P256ReduceDegree (generated code Gen/P256Limbs.v): unpacking, one elimination step of each
-   shape, the bound invariant of the elimination loop, repacking; conclusion
-        value(ReduceDegree b) * 2^257 = value64(b)  (mod p)   with loose output limbs.
-   Method as in EC/LimbProofs.v (symbolic execution with interval arithmetic, lia only on linear leaves). *)
+(* sm2P256ReduceDegree, part (a): the unpacking of 17 x uint64 into 18 x uint32. *)
 From Coq Require Import ZArith NArith NArithRing List Bool Lia Zify.
 From GmsmVerif Require Import EC.ECAffine EC.P256Model Gen.SM2Params Gen.P256Limbs EC.LimbModel EC.LimbTactics
-  EC.LimbProofs.
+  EC.LimbProofs EC.LimbReduceDefs.
 Import ListNotations.
 Open Scope N_scope.
 
 Ltac Zify.zify_post_hook ::= Z.to_euclidean_division_equations.
 
-Definition value18 (t0 t1 t2 t3 t4 t5 t6 t7 t8 t9 t10 t11 t12 t13 t14 t15 t16 t17 : N) : N :=
-  t0 + 2^29 * t1 + 2^57 * t2 + 2^86 * t3 + 2^114 * t4 + 2^143 * t5 + 2^171 * t6 + 2^200 * t7 + 2^228 * t8 + 2^257 * t9 + 2^285 * t10 + 2^314 * t11 + 2^342 * t12 + 2^371 * t13 + 2^399 * t14 + 2^428 * t15 + 2^456 * t16 + 2^485 * t17.
-
-(* ---------- (a) unpacking: 17 x uint64 -> 18 x uint32 ------------------------------------------------------- *)
 (* how one 64-bit word is cut: a word at an even position into 29 + 28 + 7 bits, at an odd position into 28 + 29 + 7 *)
 Lemma split_even : forall b, b <= 18446744073709551615 ->
   b = b mod 536870912 + 536870912 * (b mod 4294967296 / 536870912 + b / 4294967296 mod 33554432 * 8)
@@ -112,59 +105,4 @@ Proof.
   set (pc16 := b_16 / 4294967296 * 8) in *; clearbody pa16 pb16 pc16.
   unfold value18, value17. num_pows.
   euclid_pairs. subst_defs. clear_bounds. lia.
-Qed.
-
-(* ---------- (b) one elimination step ------------------------------------------------------------------------- *)
-(* p = 2^256 - 2^224 - 2^96 + 2^64 - 1.  Eliminating the lowest limb x of the window adds x*p: the limb becomes 0
-   (x + x*p = x*(2^256 - 2^224 - 2^96 + 2^64)), the multiples of 2^64 and 2^256 are added and those of 2^96 and 2^224
-   subtracted further up, with borrows (the conservative `< 0x20000000` / `< 0x10000000` tests, set4/set7 resp.
-   set5/set8/set9).  Windows: even step tmp[i..i+9] (29-bit limb first), odd step tmp[i+1..i+10] (28-bit limb first). *)
-Definition pN : N := 115792089210356248756420345214020892766250353991924191454421193933289684991999.
-Lemma pN_is_p : pN = sm2p.
-Proof. reflexivity. Qed.
-
-Definition value10e (t0 t1 t2 t3 t4 t5 t6 t7 t8 t9 : N) : N :=
-  t0 + 2^29 * t1 + 2^57 * t2 + 2^86 * t3 + 2^114 * t4 + 2^143 * t5 + 2^171 * t6 + 2^200 * t7 + 2^228 * t8 + 2^257 * t9.
-Definition value10o (t1 t2 t3 t4 t5 t6 t7 t8 t9 t10 : N) : N :=
-  t1 + 2^28 * t2 + 2^57 * t3 + 2^85 * t4 + 2^114 * t5 + 2^142 * t6 + 2^171 * t7 + 2^199 * t8 + 2^228 * t9 + 2^256 * t10.
-
-(* (c) the bound invariant of the loop, by relative position in the window.  Found by interval simulation, checked
-   here: under PE no operation of the even step wraps and its results satisfy PO (shifted by one limb); under PO no
-   operation of the odd step wraps and its results satisfy PE (shifted).  The next untouched limb enters a window
-   normalised (< 2^28 at position 9 of an even window, < 2^29 at position 10 of an odd window). *)
-Definition PE (t0 t1 t2 t3 t4 t5 t6 t7 t8 t9 : N) : Prop :=
-  t0 <= 1610612737 /\ t1 <= 805306366 /\ t2 <= 1073741950 /\ t3 <= 536870911 /\ t4 <= 1073741823 /\ t5 <= 536870911 /\ t6 <= 1073741823 /\ t7 <= 536870911 /\ t8 <= 805306366 /\ t9 <= 268435455.
-Definition PO (t1 t2 t3 t4 t5 t6 t7 t8 t9 t10 : N) : Prop :=
-  t1 <= 805306369 /\ t2 <= 1610612734 /\ t3 <= 536871038 /\ t4 <= 1073741823 /\ t5 <= 536870911 /\ t6 <= 1073741823 /\ t7 <= 536870911 /\ t8 <= 1073741823 /\ t9 <= 536870910 /\ t10 <= 536870911.
-
-Definition even_post (t0 t1 t2 t3 t4 t5 t6 t7 t8 t9 : N) (out : N*N*N*N*N*N*N*N*N*N) : Prop :=
-  let '(o0, o1, o2, o3, o4, o5, o6, o7, o8, o9) := out in
-  o0 = 0 /\ (o1 <= 805306369 /\ o2 <= 1610612734 /\ o3 <= 536871038 /\ o4 <= 1073741823 /\ o5 <= 536870911 /\ o6 <= 1073741823 /\ o7 <= 536870911 /\ o8 <= 1073741823 /\ o9 <= 536870910) /\
-  value10e o0 o1 o2 o3 o4 o5 o6 o7 o8 o9 = value10e t0 t1 t2 t3 t4 t5 t6 t7 t8 t9 + (t0 mod 536870912) * pN.
-
-Definition odd_post (t1 t2 t3 t4 t5 t6 t7 t8 t9 t10 : N) (out : N*N*N*N*N*N*N*N*N*N) : Prop :=
-  let '(o1, o2, o3, o4, o5, o6, o7, o8, o9, o10) := out in
-  o1 = 0 /\ (o2 <= 1610612737 /\ o3 <= 805306366 /\ o4 <= 1073741950 /\ o5 <= 536870911 /\ o6 <= 1073741823 /\ o7 <= 536870911 /\ o8 <= 1073741823 /\ o9 <= 536870911 /\ o10 <= 805306366) /\
-  value10o o1 o2 o3 o4 o5 o6 o7 o8 o9 o10 = value10o t1 t2 t3 t4 t5 t6 t7 t8 t9 t10 + (t1 mod 268435456) * pN.
-
-Ltac step_leaf post vals :=
-  unfold post; split; [first [assumption|reflexivity]|]; split; [repeat split; by_bounds|];
-  unfold vals, pN; num_pows; leaf_linear.
-
-Theorem gen_rd_step_even_correct : forall t0 t1 t2 t3 t4 t5 t6 t7 t8 t9,
-  PE t0 t1 t2 t3 t4 t5 t6 t7 t8 t9 ->
-  even_post t0 t1 t2 t3 t4 t5 t6 t7 t8 t9 (gen_rd_step_even t0 t1 t2 t3 t4 t5 t6 t7 t8 t9).
-Proof.
-  intros t0 t1 t2 t3 t4 t5 t6 t7 t8 t9 H. unfold PE in H. repeat match goal with H : _ /\ _ |- _ => destruct H end.
-  cbv beta delta [gen_rd_step_even]. unfold_consts.
-  exec; step_leaf even_post value10e.
-Qed.
-
-Theorem gen_rd_step_odd_correct : forall t1 t2 t3 t4 t5 t6 t7 t8 t9 t10,
-  PO t1 t2 t3 t4 t5 t6 t7 t8 t9 t10 ->
-  odd_post t1 t2 t3 t4 t5 t6 t7 t8 t9 t10 (gen_rd_step_odd t1 t2 t3 t4 t5 t6 t7 t8 t9 t10).
-Proof.
-  intros t1 t2 t3 t4 t5 t6 t7 t8 t9 t10 H. unfold PO in H. repeat match goal with H : _ /\ _ |- _ => destruct H end.
-  cbv beta delta [gen_rd_step_odd]. unfold_consts.
-  exec; step_leaf odd_post value10o.
 Qed.
